@@ -6,6 +6,7 @@ import (
 	"regexp"
 	"strconv"
 	"strings"
+	"unicode/utf8"
 
 	"github.com/expr-lang/expr"
 	"github.com/expr-lang/expr/vm"
@@ -110,6 +111,9 @@ var (
 // expression is not a simple `field OP literal` form.
 func tryFastCompare(expression string) *fastCompare {
 	if m := fastFieldOpNum.FindStringSubmatch(expression); m != nil {
+		if isExprLiteralName(m[1]) {
+			return nil
+		}
 		n, err := strconv.ParseFloat(m[3], 64)
 		if err != nil {
 			return nil
@@ -117,9 +121,25 @@ func tryFastCompare(expression string) *fastCompare {
 		return &fastCompare{field: m[1], op: m[2], numLit: n}
 	}
 	if m := fastFieldOpStr.FindStringSubmatch(expression); m != nil {
+		if isExprLiteralName(m[1]) || !isRawStringLiteral(m[3]) {
+			return nil
+		}
 		return &fastCompare{field: m[1], op: m[2], strLit: m[3], isString: true}
 	}
 	return nil
+}
+
+// isExprLiteralName reports identifiers that expr-lang reads as literals rather
+// than as a field lookup; a comparison on them is left to expr-lang.
+func isExprLiteralName(name string) bool {
+	return name == "nil" || name == "true" || name == "false"
+}
+
+// isRawStringLiteral reports whether the bytes between the quotes are the very
+// string expr-lang compares with: expr-lang processes backslash escapes,
+// normalizes CR to LF and replaces invalid UTF-8, so such literals are left to it.
+func isRawStringLiteral(lit string) bool {
+	return !strings.ContainsAny(lit, "\\\r") && utf8.ValidString(lit)
 }
 
 // eval evaluates the fast-path. The bool result is valid only when ok is true;
